@@ -2,8 +2,10 @@ package command
 
 import (
 	"context"
+	"io"
 	"net"
 	"os"
+	"strings"
 	"time"
 
 	"github.com/v-byte-cpu/sx/command/log"
@@ -272,5 +274,100 @@ func VerifH_C03_wireARP() {
 	verifAssert(uniq == live, "live mode must de-duplicate its output (and only live mode)")
 	_, ok := wireConf.scanMethod.(*arp.ScanMethod)
 	verifAssert(ok, "not the ARP scan method")
+	verifCover("done")
+}
+
+// VerifH_C19_wireARPStream: the request/packet pipeline the arp command really builds (RunE
+// interpreted up to the engine start, then conf.scanMethod.Packets is drained here): target
+// 192.168.0.0/29, with or without an exclusion list (192.168.0.2/31 and 192.168.0.5), with or
+// without --live.  Every pass carries one ARP request for each target address that is not
+// excluded and none for an excluded one; without --live the stream ends after one pass, with
+// --live passes keep coming.
+func VerifH_C19_wireARPStream() {
+	wireReset()
+	wireVPN = false
+	c := newARPCmd()
+	live := ndBool("live")
+	if live {
+		c.opts.liveTimeout = 100 * time.Millisecond
+	}
+	excl := ndBool("exclude")
+	if excl {
+		ex, err := parseExcludeFile(func() (io.ReadCloser, error) {
+			return io.NopCloser(strings.NewReader("192.168.0.2/31\n192.168.0.5\n")), nil
+		})
+		verifAssert(err == nil, "well-formed exclusion file refused")
+		c.opts.excludeIPs = ex
+	}
+	allowed := map[byte]bool{}
+	for a := byte(0); a < 8; a++ {
+		if !(excl && (a == 2 || a == 3 || a == 5)) {
+			allowed[a] = true
+		}
+	}
+	var targets []int // last octet of each probe's target address, -1 for a malformed probe
+	closed := false
+	passes := 1
+	if live {
+		passes = 3
+	}
+	wireProbe = func(conf *packetScanConfig) {
+		sm, ok := conf.scanMethod.(*arp.ScanMethod)
+		verifAssert(ok, "not the ARP scan method")
+		if !ok {
+			return
+		}
+		ctx, cancel := context.WithCancel(context.Background())
+		defer cancel()
+		r := conf.scanRange
+		r.DstSubnet = &net.IPNet{IP: net.IPv4(192, 168, 0, 0).To4(), Mask: net.CIDRMask(29, 32)}
+		pkts := sm.Packets(ctx, &r)
+		for len(targets) < passes*len(allowed)+1 {
+			stop := false
+			select {
+			case p, more := <-pkts:
+				if !more {
+					closed, stop = true, true
+					break
+				}
+				t := -1
+				if p.Err == nil && p.Buf != nil {
+					if b := p.Buf.Bytes(); len(b) >= 42 && b[12] == 0x08 && b[13] == 0x06 && b[38] == 192 && b[39] == 168 && b[40] == 0 {
+						t = int(b[41])
+					}
+				}
+				targets = append(targets, t)
+			case <-time.After(250 * time.Millisecond):
+				stop = true
+			}
+			if stop {
+				break
+			}
+		}
+	}
+	err := c.cmd.RunE(c.cmd, []string{"192.168.0.0/29"})
+	wireProbe = nil
+	verifAssert(err == nil, "command failed before the engine start")
+	per := len(allowed)
+	if live {
+		verifCover("live")
+		verifAssert(len(targets) >= passes*per, "live mode: passes stopped coming")
+		verifAssert(!closed, "live mode: the stream ended without cancellation")
+	} else {
+		verifCover("single-pass")
+		verifAssert(len(targets) == per, "a pass does not carry exactly one probe per target address (minus exclusions)")
+		verifAssert(closed, "the stream did not end after the single pass")
+	}
+	for p := 0; p < passes && (p+1)*per <= len(targets); p++ {
+		seen := map[byte]bool{}
+		for _, t := range targets[p*per : (p+1)*per] {
+			verifAssert(t >= 0 && t < 8, "probe is not a well-formed ARP request for an address of the target subnet")
+			if t >= 0 && t < 8 {
+				verifAssert(allowed[byte(t)], "an excluded address was probed")
+				verifAssert(!seen[byte(t)], "an address was probed twice in one pass (or a pass is incomplete)")
+				seen[byte(t)] = true
+			}
+		}
+	}
 	verifCover("done")
 }
